@@ -3,6 +3,7 @@
 package spynode
 
 import (
+	"strings"
 	"fmt"
 	"math/rand"
 	"testing"
@@ -245,4 +246,34 @@ func c12Run(r *rand.Rand, sc c01Scenario, adv *adversary, nconn, pct int) (*dsSi
 			}
 		}
 	})
+}
+
+
+// ---- C12 over transaction histories (DD): untrusted deliveries never produce a safe / confirmed report --
+
+func TestVerif_C12Tx(t *testing.T) {
+	rep := verifkit.NewReport("C12")
+	defer rep.Write()
+	n := verifkit.N(2000, 100000)
+	for ci := 0; ci < n; ci++ {
+		if !verifkit.Mine(ci) {
+			continue
+		}
+		ci := ci
+		verifkit.RunCase(rep, ci, func() {
+			r := verifkit.Rand("C12/tx", ci)
+			w, fp, err := c03ScenarioOpt(r, false, ci%3 == 0)
+			if err != nil {
+				rep.Inconc(ci, err.Error())
+				return
+			}
+			for _, f := range w.finds {
+				if f.prop == "C12" {
+					rep.Finding(ci, f.sig, f.detail+" | history "+fp, w.witness())
+				}
+			}
+			rep.Event("tx_histories_with_untrusted_deliveries", 1)
+			rep.Case(fp, strings.Contains(fp, "G") || strings.Contains(fp, "S"))
+		})
+	}
 }
